@@ -8,13 +8,18 @@ Two kinds of theorems, both about `Model.Compile` code on `Model.LangVM`:
   guard's value is on the stack, the construct's own glue instructions take the pc to the join
   point in a fixed number of steps, and every pc visited lies outside the code range of the
   untaken operand / branch.  Covered: `&&`, `||`, optional coalescing `or`, `if` expressions (both
-  directions), `check`, `if` statements (condition false).
+  directions), `check`; the `if`-statement chain (`skip_branch_false`: a false condition jumps
+  over the branch body; `skip_branch_done`, `skip_ifS_done`: after a taken branch the remaining
+  branches and the else block are jumped over); `match` (`skip_test_hit_lit`,
+  `skip_test_hit_bind`, `skip_test_default`: a successful test goes straight to the arm label,
+  the remaining tests are not entered; `skip_arm_done_E/S`: after an arm, `End; Jump end` stays
+  inside the arm's own block and does not enter the later arms; `skip_match_done_E/S`: for arm
+  `k` of a whole `match`, these two steps end at the end of the `match`).
 * `untaken_*` (**untaken_indep**): using the C22 simulation for the guard only, the whole
   construct ends with the guard-determined result and with exactly the guard's foreign-call
   log, for ANY untaken operand `b` (no hypothesis on `b` at all: it may panic, call foreign
   functions, be ill-typed).
 
-Not covered by a theorem (tie only): `match` (arm dispatch and the jump over the later arms).
 -/
 namespace AranyaV.Lang
 open AranyaV.Gen.Lang
@@ -294,6 +299,301 @@ theorem untaken_ite_else (hP : ProgOk S) (n : Nat) (cnd t f : Expr) (env : Env) 
   refine Outcome.of_steps pre (Outcome.cast iht ?_)
   intro v l'; congr 1
   simp only [compileExpr, List.length_append, List.length_cons, List.length_nil]; omega
+
+/-! ## `if`-statement chain and `match` (skip_region) -/
+
+/-- **skip_region, `if`-statement chain, condition false**: with `false` on the stack after a
+branch condition, `Not; Branch next` (two steps) reaches the next branch's test (or the else
+block / the end); the branch body `Block ss End Jump` is never entered.  Stated for the head of
+`compileBranches`, hence (taking suffixes) for every position of the chain. -/
+theorem skip_branch_false (cnd : Expr) (ss : List Stmt) (rest : List (Expr × List Stmt)) (end_ : Label)
+    (wp c : Nat) (σ : List Val) (sc : List Env) (K : List Nat) (lg : Log)
+    (hcode : CodeAt S.labels S.m.prog wp (compileBranches S.m.p.structs wp c end_ ((cnd, ss) :: rest)).code)
+    (hdefs : DefsOk S.labels (compileBranches S.m.p.structs wp c end_ ((cnd, ss) :: rest)).defs) :
+    let C := compileExpr S.m.p.structs wp (c + 1) cnd
+    let B := compileStmts S.m.p.structs (wp + C.code.length + 3) C.c ss
+    let wpN := wp + C.code.length + 3 + B.code.length + 2
+    ∃ ps, StepsVia S.m ⟨.bool false :: σ, sc, K, wp + C.code.length, lg⟩ ps ⟨σ, sc, K, wpN, lg⟩ ∧
+      ∀ pc ∈ ps, ¬ InRange (wp + C.code.length + 2) (B.code.length + 3) pc := by
+  intro C B wpN
+  simp only [compileBranches, defsOk_append, defsOk_cons, DefsOk.nil, and_true] at hdefs
+  obtain ⟨⟨⟨_, _⟩, hnext⟩, _⟩ := hdefs
+  simp only [compileBranches, codeAt_append, codeAt_cons, CodeAt.nil, and_true] at hcode
+  simp only [res_br hnext] at hcode
+  simp only [res] at hcode
+  normpc at hcode
+  obtain ⟨⟨⟨⟨_, hnot, hbr, _⟩, _⟩, _⟩, _⟩ := hcode
+  refine ⟨[wp + C.code.length, wp + C.code.length + 1], ?_, ?_⟩
+  · exact .next (step_not hnot) (.next (step_branch_true hbr) (.refl _))
+  · intro pc hpc
+    simp only [List.mem_cons, List.not_mem_nil, or_false] at hpc
+    simp only [InRange]
+    rcases hpc with rfl | rfl <;> omega
+
+
+/-- **skip_region, `if`-statement chain, after a taken branch**: when the body of a branch is
+done, `End; Jump end` leaves for the end label without entering the remaining branches
+(`compileBranches … rest`, at `wpN`). -/
+theorem skip_branch_done (cnd : Expr) (ss : List Stmt) (rest : List (Expr × List Stmt)) (end_ : Label) (tgt : Nat)
+    (wp c : Nat) (σ : List Val) (b : List (Nat × Val)) (env : Env) (fr : List Env) (K : List Nat) (lg : Log)
+    (hcode : CodeAt S.labels S.m.prog wp (compileBranches S.m.p.structs wp c end_ ((cnd, ss) :: rest)).code)
+    (hend : lookupLabel S.labels end_ = some tgt) :
+    let C := compileExpr S.m.p.structs wp (c + 1) cnd
+    let B := compileStmts S.m.p.structs (wp + C.code.length + 3) C.c ss
+    let wpN := wp + C.code.length + 3 + B.code.length + 2
+    let R := compileBranches S.m.p.structs wpN B.c end_ rest
+    ∃ ps, StepsVia S.m ⟨σ, (b :: env) :: fr, K, wp + C.code.length + 3 + B.code.length, lg⟩ ps ⟨σ, env :: fr, K, tgt, lg⟩ ∧
+      ∀ pc ∈ ps, ¬ InRange wpN R.code.length pc := by
+  intro C B wpN R
+  simp only [compileBranches, codeAt_append, codeAt_cons, CodeAt.nil, and_true] at hcode
+  simp only [res_jmp hend] at hcode
+  simp only [res] at hcode
+  normpc at hcode
+  obtain ⟨⟨_, hE, hJ⟩, _⟩ := hcode
+  refine ⟨[wp + C.code.length + 3 + B.code.length, wp + C.code.length + 3 + B.code.length + 1], ?_, ?_⟩
+  · exact .next (step_end hE) (.next (step_jump hJ) (.refl _))
+  · intro pc hpc
+    simp only [List.mem_cons, List.not_mem_nil, or_false] at hpc
+    simp only [InRange]
+    rcases hpc with rfl | rfl <;> omega
+
+/-- **skip_region, `if` statement, first branch taken**: after the first branch's body the two
+glue steps reach the end of the whole statement; the rest of the chain and the else block
+(`[wpN, end)`) are never entered. -/
+theorem skip_ifS_done (cnd : Expr) (ss : List Stmt) (rest : List (Expr × List Stmt)) (hasElse : Bool) (els : List Stmt)
+    (wp c : Nat) (σ : List Val) (b : List (Nat × Val)) (env : Env) (fr : List Env) (K : List Nat) (lg : Log)
+    (hcode : CodeAt S.labels S.m.prog wp (compileStmt S.m.p.structs wp c (.ifS ((cnd, ss) :: rest) hasElse els)).code)
+    (hdefs : DefsOk S.labels (compileStmt S.m.p.structs wp c (.ifS ((cnd, ss) :: rest) hasElse els)).defs) :
+    let C := compileExpr S.m.p.structs wp (c + 2) cnd
+    let B := compileStmts S.m.p.structs (wp + C.code.length + 3) C.c ss
+    let wpN := wp + C.code.length + 3 + B.code.length + 2
+    let tot := (compileStmt S.m.p.structs wp c (.ifS ((cnd, ss) :: rest) hasElse els)).code.length
+    ∃ ps, StepsVia S.m ⟨σ, (b :: env) :: fr, K, wp + C.code.length + 3 + B.code.length, lg⟩ ps ⟨σ, env :: fr, K, wp + tot, lg⟩ ∧
+      ∀ pc ∈ ps, ¬ InRange wpN (wp + tot - wpN) pc := by
+  intro C B wpN tot
+  have hend : lookupLabel S.labels (Label.anon c) = some (wp + tot) := by
+    cases hasElse <;>
+      simp only [compileStmt, if_true, Bool.false_eq_true, if_false, defsOk_append, defsOk_cons, DefsOk.nil, and_true] at hdefs <;>
+      simpa [tot, compileStmt, Nat.add_assoc] using hdefs.2
+  have hcB : CodeAt S.labels S.m.prog wp (compileBranches S.m.p.structs wp (c + 1) (Label.anon c) ((cnd, ss) :: rest)).code := by
+    simp only [compileStmt, codeAt_append] at hcode; exact hcode.1
+  simp only [compileBranches, codeAt_append, codeAt_cons, CodeAt.nil, and_true] at hcB
+  simp only [res_jmp hend] at hcB
+  simp only [res] at hcB
+  normpc at hcB
+  obtain ⟨⟨_, hE, hJ⟩, _⟩ := hcB
+  refine ⟨[wp + C.code.length + 3 + B.code.length, wp + C.code.length + 3 + B.code.length + 1], ?_, ?_⟩
+  · exact .next (step_end hE) (.next (step_jump hJ) (.refl _))
+  · intro pc hpc
+    simp only [List.mem_cons, List.not_mem_nil, or_false] at hpc
+    simp only [InRange]
+    rcases hpc with rfl | rfl <;> omega
+
+/-! ## `match` -/
+
+/-- **skip_region, `match` dispatch, literal pattern hit**: with `true` on the stack after the
+`Eq` of a literal test, the `Branch arm` goes straight to the arm label; the remaining tests of
+this arm (`R`) are not entered.  (The tests of the later arms and every other arm's body lie
+behind `R` resp. behind all tests; the only pc visited is the `Branch` itself.) -/
+theorem skip_test_hit_lit (v : Expr) (vs : List Expr) (arm : Label) (tgt : Nat) (wp c : Nat)
+    (σ : List Val) (sc : List Env) (K : List Nat) (lg : Log)
+    (hw : wrapOfBinding v = none)
+    (hcode : CodeAt S.labels S.m.prog wp (compilePatVals S.m.p.structs wp c arm (v :: vs)).code)
+    (harm : lookupLabel S.labels arm = some tgt) :
+    let E := compileExpr S.m.p.structs (wp + 1) c v
+    let R := compilePatVals S.m.p.structs (wp + 1 + E.code.length + 2) E.c arm vs
+    StepsVia S.m ⟨.bool true :: σ, sc, K, wp + 1 + E.code.length + 1, lg⟩ [wp + 1 + E.code.length + 1] ⟨σ, sc, K, tgt, lg⟩ ∧
+      ¬ InRange (wp + 1 + E.code.length + 2) R.code.length (wp + 1 + E.code.length + 1) := by
+  intro E R
+  simp only [compilePatVals, hw, codeAt_append, codeAt_cons, CodeAt.nil, and_true] at hcode
+  simp only [res_br harm] at hcode
+  normpc at hcode
+  have hbr := hcode.1.2.2
+  rw [show wp + 1 + E.code.length + 1 = wp + E.code.length + 1 + 1 from by omega]
+  refine ⟨.next (step_branch_true hbr) (.refl _), ?_⟩
+  simp only [InRange]; omega
+
+/-- **skip_region, `match` dispatch, binding pattern hit** (`Some(x)`, `Ok(x)`, `Err(x)`): `Dup;
+Is w` left `true`; the `Branch arm` goes to the arm label, the remaining tests are not entered -/
+theorem skip_test_hit_bind (v : Expr) (vs : List Expr) (w : WrapType) (arm : Label) (tgt : Nat) (wp c : Nat)
+    (σ : List Val) (sc : List Env) (K : List Nat) (lg : Log)
+    (hw : wrapOfBinding v = some w)
+    (hcode : CodeAt S.labels S.m.prog wp (compilePatVals S.m.p.structs wp c arm (v :: vs)).code)
+    (harm : lookupLabel S.labels arm = some tgt) :
+    let R := compilePatVals S.m.p.structs (wp + 3) c arm vs
+    StepsVia S.m ⟨.bool true :: σ, sc, K, wp + 2, lg⟩ [wp + 2] ⟨σ, sc, K, tgt, lg⟩ ∧
+      ¬ InRange (wp + 3) R.code.length (wp + 2) := by
+  intro R
+  simp only [compilePatVals, hw, codeAt_append, codeAt_cons, CodeAt.nil, and_true] at hcode
+  simp only [res_br harm] at hcode
+  normpc at hcode
+  obtain ⟨⟨_, _, hbr⟩, _⟩ := hcode
+  refine ⟨.next (step_branch_true hbr) (.refl _), ?_⟩
+  simp only [InRange]; omega
+
+/-- **skip_region, `match` dispatch, default arm**: the `Jump arm` of a `_` arm goes to the arm
+label; the tests after it are not entered -/
+theorem skip_test_default (rest : List Pat) (tgt : Nat) (wp c : Nat)
+    (σ : List Val) (sc : List Env) (K : List Nat) (lg : Log)
+    (hcode : CodeAt S.labels S.m.prog wp (compileTestsP S.m.p.structs wp c (.default :: rest)).1.code)
+    (harm : lookupLabel S.labels (Label.anon c) = some tgt) :
+    let R := compileTestsP S.m.p.structs (wp + 1) (c + 1) rest
+    StepsVia S.m ⟨σ, sc, K, wp, lg⟩ [wp] ⟨σ, sc, K, tgt, lg⟩ ∧ ¬ InRange (wp + 1) R.1.code.length wp := by
+  intro R
+  simp only [compileTestsP, codeAt_cons] at hcode
+  simp only [res_jmp harm] at hcode
+  refine ⟨.next (step_jump hcode.1) (.refl _), ?_⟩
+  simp only [InRange]; omega
+
+/-- **skip_region, `match` expression, after an arm**: when the body of an arm has produced its
+value, `End; Jump end` leaves for the end label; both pcs lie inside the arm's own block, the
+later arms (`R`, at `wpR`) are never entered.  Stated for the head of `compileArmsE`, hence (taking
+suffixes) for every arm. -/
+theorem skip_arm_done_E (l : Label) (ls : List Label) (pat : Pat) (body : Expr) (rest : List (Pat × Expr))
+    (end_ : Label) (tgt : Nat) (wp c : Nat)
+    (σ : List Val) (b : List (Nat × Val)) (env : Env) (fr : List Env) (K : List Nat) (lg : Log)
+    (hcode : CodeAt S.labels S.m.prog wp (compileArmsE S.m.p.structs wp c end_ (l :: ls) ((pat, body) :: rest)).code)
+    (hend : lookupLabel S.labels end_ = some tgt) :
+    let B := compileExpr S.m.p.structs (wp + 1 + (armPre pat).length) c body
+    let wpR := wp + 1 + (armPre pat).length + B.code.length + 2
+    let R := compileArmsE S.m.p.structs wpR B.c end_ ls rest
+    ∃ ps, StepsVia S.m ⟨σ, (b :: env) :: fr, K, wp + 1 + (armPre pat).length + B.code.length, lg⟩ ps ⟨σ, env :: fr, K, tgt, lg⟩ ∧
+      (∀ pc ∈ ps, InRange wp (wpR - wp) pc) ∧ ∀ pc ∈ ps, ¬ InRange wpR R.code.length pc := by
+  intro B wpR R
+  rw [compileArmsE_cons] at hcode
+  simp only [codeAt_append, codeAt_cons, CodeAt.nil, and_true] at hcode
+  simp only [res_jmp hend] at hcode
+  simp only [res] at hcode
+  normpc at hcode
+  obtain ⟨⟨_, hE, hJ⟩, _⟩ := hcode
+  refine ⟨[wp + 1 + (armPre pat).length + B.code.length, wp + 1 + (armPre pat).length + B.code.length + 1], ?_, ?_, ?_⟩
+  · rw [show wp + 1 + (armPre pat).length + B.code.length = wp + (armPre pat).length + 1 + B.code.length from by omega]
+    exact .next (step_end hE) (.next (step_jump hJ) (.refl _))
+  all_goals (
+    intro pc hpc
+    simp only [List.mem_cons, List.not_mem_nil, or_false] at hpc
+    simp only [InRange]
+    rcases hpc with rfl | rfl <;> omega)
+
+/-- **skip_region, `match` statement, after an arm** (as `skip_arm_done_E`) -/
+theorem skip_arm_done_S (l : Label) (ls : List Label) (pat : Pat) (body : List Stmt) (rest : List (Pat × List Stmt))
+    (end_ : Label) (tgt : Nat) (wp c : Nat)
+    (σ : List Val) (b : List (Nat × Val)) (env : Env) (fr : List Env) (K : List Nat) (lg : Log)
+    (hcode : CodeAt S.labels S.m.prog wp (compileArmsS S.m.p.structs wp c end_ (l :: ls) ((pat, body) :: rest)).code)
+    (hend : lookupLabel S.labels end_ = some tgt) :
+    let B := compileStmts S.m.p.structs (wp + 1 + (armPre pat).length) c body
+    let wpR := wp + 1 + (armPre pat).length + B.code.length + 2
+    let R := compileArmsS S.m.p.structs wpR B.c end_ ls rest
+    ∃ ps, StepsVia S.m ⟨σ, (b :: env) :: fr, K, wp + 1 + (armPre pat).length + B.code.length, lg⟩ ps ⟨σ, env :: fr, K, tgt, lg⟩ ∧
+      (∀ pc ∈ ps, InRange wp (wpR - wp) pc) ∧ ∀ pc ∈ ps, ¬ InRange wpR R.code.length pc := by
+  intro B wpR R
+  rw [compileArmsS_cons] at hcode
+  simp only [codeAt_append, codeAt_cons, CodeAt.nil, and_true] at hcode
+  simp only [res_jmp hend] at hcode
+  simp only [res] at hcode
+  normpc at hcode
+  obtain ⟨⟨_, hE, hJ⟩, _⟩ := hcode
+  refine ⟨[wp + 1 + (armPre pat).length + B.code.length, wp + 1 + (armPre pat).length + B.code.length + 1], ?_, ?_, ?_⟩
+  · rw [show wp + 1 + (armPre pat).length + B.code.length = wp + (armPre pat).length + 1 + B.code.length from by omega]
+    exact .next (step_end hE) (.next (step_jump hJ) (.refl _))
+  all_goals (
+    intro pc hpc
+    simp only [List.mem_cons, List.not_mem_nil, or_false] at hpc
+    simp only [InRange]
+    rcases hpc with rfl | rfl <;> omega)
+
+
+/-- **skip_region, whole `match` expression, arm `k`**: arm `k`'s block sits at the address `wpk`
+its label resolves to; when its body is done, `End; Jump end` (both inside the arm's own block)
+reach the end of the whole `match` — no other arm is entered on the way out. -/
+theorem skip_match_done_E (scrut : Expr) (arms : List (Pat × Expr)) (k : Nat) (pat : Pat) (body : Expr) (wp c : Nat)
+    (σ : List Val) (b : List (Nat × Val)) (env : Env) (fr : List Env) (K : List Nat) (lg : Log)
+    (hk : arms[k]? = some (pat, body))
+    (hcode : CodeAt S.labels S.m.prog wp (compileExpr S.m.p.structs wp c (.mtch scrut arms)).code)
+    (hdefs : DefsOk S.labels (compileExpr S.m.p.structs wp c (.mtch scrut arms)).defs) :
+    ∃ wpk ck lk ps, lookupLabel S.labels lk = some wpk ∧
+      CodeAt S.labels S.m.prog wpk (.Block :: armPre pat ++
+        (compileExpr S.m.p.structs (wpk + 1 + (armPre pat).length) ck body).code ++ [.End, jmp (Label.anon (compileExpr S.m.p.structs wp c scrut).c)]) ∧
+      StepsVia S.m ⟨σ, (b :: env) :: fr, K, wpk + 1 + (armPre pat).length + (compileExpr S.m.p.structs (wpk + 1 + (armPre pat).length) ck body).code.length, lg⟩ ps
+        ⟨σ, env :: fr, K, wp + (compileExpr S.m.p.structs wp c (.mtch scrut arms)).code.length, lg⟩ ∧
+      ∀ pc ∈ ps, InRange wpk (1 + (armPre pat).length + (compileExpr S.m.p.structs (wpk + 1 + (armPre pat).length) ck body).code.length + 2) pc := by
+  have hlen : (compileTestsE S.m.p.structs (wp + (compileExpr S.m.p.structs wp c scrut).code.length) ((compileExpr S.m.p.structs wp c scrut).c + 1) arms).2.length = arms.length := by
+    rw [compileTestsE_eq, tests_labels_length, List.length_map]
+  have hklt : k < arms.length := by
+    rcases Nat.lt_or_ge k arms.length with h | h
+    · exact h
+    · rw [List.getElem?_eq_none h] at hk; cases hk
+  obtain ⟨lk, hlk⟩ : ∃ lk, (compileTestsE S.m.p.structs (wp + (compileExpr S.m.p.structs wp c scrut).code.length) ((compileExpr S.m.p.structs wp c scrut).c + 1) arms).2[k]? = some lk :=
+    ⟨_, List.getElem?_eq_getElem (by omega)⟩
+  have hcode' := hcode
+  have hdefs' := hdefs
+  simp only [compileExpr, codeAt_append, defsOk_append, defsOk_cons, DefsOk.nil, and_true] at hcode' hdefs'
+  simp only [List.length_append, ← Nat.add_assoc] at hcode'
+  obtain ⟨wpk, ck, hl, hcA, _⟩ := arm_layoutE S arms _ _ _ _ k pat body lk hk hlk hcode'.2 hdefs'.1.2
+  have hend := hdefs'.2
+  refine ⟨wpk, ck, lk, [wpk + 1 + (armPre pat).length + (compileExpr S.m.p.structs (wpk + 1 + (armPre pat).length) ck body).code.length,
+    wpk + 1 + (armPre pat).length + (compileExpr S.m.p.structs (wpk + 1 + (armPre pat).length) ck body).code.length + 1], hl, hcA, ?_, ?_⟩
+  · simp only [codeAt_append, codeAt_cons, CodeAt.nil, and_true] at hcA
+    simp only [res_jmp hend] at hcA
+    simp only [res] at hcA
+    normpc at hcA
+    obtain ⟨_, hE, hJ⟩ := hcA
+    rw [show wpk + 1 + (armPre pat).length + (compileExpr S.m.p.structs (wpk + 1 + (armPre pat).length) ck body).code.length =
+      wpk + (armPre pat).length + 1 + (compileExpr S.m.p.structs (wpk + 1 + (armPre pat).length) ck body).code.length from by omega]
+    refine .next (step_end hE) (.next (step_jump ?_) (.refl _))
+    rw [hJ]; congr 3
+    simp only [compileExpr, List.length_append]; omega
+  · intro pc hpc
+    simp only [List.mem_cons, List.not_mem_nil, or_false] at hpc
+    simp only [InRange]
+    rcases hpc with rfl | rfl <;> omega
+
+/-- **skip_region, whole `match` statement, arm `k`**: arm `k`'s block sits at the address `wpk`
+its label resolves to; when its body is done, `End; Jump end` (both inside the arm's own block)
+reach the end of the whole `match` — no other arm is entered on the way out. -/
+theorem skip_match_done_S (scrut : Expr) (arms : List (Pat × List Stmt)) (k : Nat) (pat : Pat) (body : List Stmt) (wp c : Nat)
+    (σ : List Val) (b : List (Nat × Val)) (env : Env) (fr : List Env) (K : List Nat) (lg : Log)
+    (hk : arms[k]? = some (pat, body))
+    (hcode : CodeAt S.labels S.m.prog wp (compileStmt S.m.p.structs wp c (.mtch scrut arms)).code)
+    (hdefs : DefsOk S.labels (compileStmt S.m.p.structs wp c (.mtch scrut arms)).defs) :
+    ∃ wpk ck lk ps, lookupLabel S.labels lk = some wpk ∧
+      CodeAt S.labels S.m.prog wpk (.Block :: armPre pat ++
+        (compileStmts S.m.p.structs (wpk + 1 + (armPre pat).length) ck body).code ++ [.End, jmp (Label.anon (compileExpr S.m.p.structs wp c scrut).c)]) ∧
+      StepsVia S.m ⟨σ, (b :: env) :: fr, K, wpk + 1 + (armPre pat).length + (compileStmts S.m.p.structs (wpk + 1 + (armPre pat).length) ck body).code.length, lg⟩ ps
+        ⟨σ, env :: fr, K, wp + (compileStmt S.m.p.structs wp c (.mtch scrut arms)).code.length, lg⟩ ∧
+      ∀ pc ∈ ps, InRange wpk (1 + (armPre pat).length + (compileStmts S.m.p.structs (wpk + 1 + (armPre pat).length) ck body).code.length + 2) pc := by
+  have hlen : (compileTestsS S.m.p.structs (wp + (compileExpr S.m.p.structs wp c scrut).code.length) ((compileExpr S.m.p.structs wp c scrut).c + 1) arms).2.length = arms.length := by
+    rw [compileTestsS_eq, tests_labels_length, List.length_map]
+  have hklt : k < arms.length := by
+    rcases Nat.lt_or_ge k arms.length with h | h
+    · exact h
+    · rw [List.getElem?_eq_none h] at hk; cases hk
+  obtain ⟨lk, hlk⟩ : ∃ lk, (compileTestsS S.m.p.structs (wp + (compileExpr S.m.p.structs wp c scrut).code.length) ((compileExpr S.m.p.structs wp c scrut).c + 1) arms).2[k]? = some lk :=
+    ⟨_, List.getElem?_eq_getElem (by omega)⟩
+  have hcode' := hcode
+  have hdefs' := hdefs
+  simp only [compileStmt, codeAt_append, defsOk_append, defsOk_cons, DefsOk.nil, and_true] at hcode' hdefs'
+  simp only [List.length_append, ← Nat.add_assoc] at hcode'
+  obtain ⟨wpk, ck, hl, hcA, _⟩ := arm_layoutS S arms _ _ _ _ k pat body lk hk hlk hcode'.2 hdefs'.1.2
+  have hend := hdefs'.2
+  refine ⟨wpk, ck, lk, [wpk + 1 + (armPre pat).length + (compileStmts S.m.p.structs (wpk + 1 + (armPre pat).length) ck body).code.length,
+    wpk + 1 + (armPre pat).length + (compileStmts S.m.p.structs (wpk + 1 + (armPre pat).length) ck body).code.length + 1], hl, hcA, ?_, ?_⟩
+  · simp only [codeAt_append, codeAt_cons, CodeAt.nil, and_true] at hcA
+    simp only [res_jmp hend] at hcA
+    simp only [res] at hcA
+    normpc at hcA
+    obtain ⟨_, hE, hJ⟩ := hcA
+    rw [show wpk + 1 + (armPre pat).length + (compileStmts S.m.p.structs (wpk + 1 + (armPre pat).length) ck body).code.length =
+      wpk + (armPre pat).length + 1 + (compileStmts S.m.p.structs (wpk + 1 + (armPre pat).length) ck body).code.length from by omega]
+    refine .next (step_end hE) (.next (step_jump ?_) (.refl _))
+    rw [hJ]; congr 3
+    simp only [compileStmt, List.length_append]; omega
+  · intro pc hpc
+    simp only [List.mem_cons, List.not_mem_nil, or_false] at hpc
+    simp only [InRange]
+    rcases hpc with rfl | rfl <;> omega
+
+
 
 /-! ### non-vacuity: `exE = (saturating_add(x,1) <= 5) && !(x == 3)` of Props/C22 placed at 0 satisfies
 the hypotheses of `skip_and`; the three glue pcs are 6, 7, 8 and `b`'s code occupies [9, 13). -/
